@@ -150,6 +150,8 @@ func (bpe *basePitEntry) InsertInRecord(
 	record.LatestTimestamp = time.Now()
 	record.LatestInterest = interest.NameV.Clone()
 	record.ExpirationTime = time.Now().Add(lifetime)
+	// The pending Interest of this face is now this one: the Data goes back with the token it carries
+	record.PitToken = append([]byte{}, incomingPitToken...)
 	return record, true, previousNonce
 }
 
